@@ -49,4 +49,109 @@ theorem u32_filter (w : Nat) : Src.u32.filter w = some (filter w) := by
 theorem CardNumber_filter (w : Nat) : Src.CardNumber.filter w = some (filter w) := by
   simp only [Src.CardNumber.filter, u32_filter, Option.bind]
 
+/-! ### constant-pattern matches (`Src.matchTable`) against the regenerated complete graphs -/
+
+theorem lookup_none_of_not_mem {l : List (Nat × Nat)} {w : Nat} (h : w ∉ l.map (·.1)) : l.lookup w = none := by
+  induction l with
+  | nil => rfl
+  | cons p ps ih =>
+    simp only [List.map, List.mem_cons, not_or] at h
+    have : (w == p.1) = false := by simpa using h.1
+    obtain ⟨a, b⟩ := p
+    simp only [List.lookup] at *
+    simp only [this]
+    exact ih h.2
+
+/-- two association lists that agree (up to the default) on the keys of either one denote the same function -/
+theorem matchTable_eq (t1 t2 : List (Nat × Nat)) (d : Nat)
+    (h1 : ∀ k ∈ t1.map (·.1), (t1.lookup k).getD d = (t2.lookup k).getD d)
+    (h2 : ∀ k ∈ t2.map (·.1), (t1.lookup k).getD d = (t2.lookup k).getD d) (w : Nat) :
+    Src.matchTable t1 d w = (t2.lookup w).getD d := by
+  unfold Src.matchTable
+  by_cases m1 : w ∈ t1.map (·.1)
+  · exact h1 w m1
+  · by_cases m2 : w ∈ t2.map (·.1)
+    · exact h2 w m2
+    · rw [lookup_none_of_not_mem m1, lookup_none_of_not_mem m2]
+
+theorem u64_from_ckc (w : Nat) : Src.u64.from_ckc w = some (fromCkc w) := by
+  unfold Src.u64.from_ckc fromCkc
+  rw [matchTable_eq _ Gen.fromCkcPoints _ (by decide +kernel) (by decide +kernel)]; rfl
+
+theorem u32_from_binary_card (x : Nat) : Src.u32.from_binary_card x = some (fromBinaryCard x) := by
+  unfold Src.u32.from_binary_card fromBinaryCard
+  rw [matchTable_eq _ Gen.fromBcPoints _ (by decide +kernel) (by decide +kernel)]; rfl
+
+/-! ### field readers and flags -/
+theorem c_filters : Src.CardNumber.RANK_FLAG_FILTER = Gen.rankFlagFilter ∧ Src.CardNumber.RANK_FLAG_SHIFT = Gen.rankFlagShift ∧
+    Src.CardNumber.SUIT_FILTER = Gen.suitFilter ∧ Src.CardNumber.SUIT_SHIFT = Gen.suitShift ∧
+    Src.CardNumber.RANK_PRIME_FILTER = Gen.rankPrimeFilter ∧ Src.CardNumber.PAIR = Gen.pairFlag ∧
+    Src.CardNumber.TRIPS = Gen.tripsFlag ∧ Src.CardNumber.QUADS = Gen.quadsFlag ∧
+    Src.CardNumber.MULTIPLES_FILTER = Gen.multiplesFilter := by decide
+
+theorem u32_get_rank_flag (w : Nat) : Src.u32.get_rank_flag w = some (getRankFlag w) := rfl
+theorem u32_get_rank_bit (w : Nat) : Src.u32.get_rank_bit w = some (getRankBit w) := rfl
+theorem u32_get_rank_prime (w : Nat) : Src.u32.get_rank_prime w = some (getRankPrime w) := rfl
+theorem u32_get_suit_flag (w : Nat) : Src.u32.get_suit_flag w = some (getSuitFlag w) := rfl
+theorem u32_get_suit_bit (w : Nat) : Src.u32.get_suit_bit w = some (getSuitBit w) := rfl
+theorem u32_flag_as_pair (w : Nat) : Src.u32.flag_as_pair w = some (flagAsPair w) := rfl
+theorem u32_flag_as_trips (w : Nat) : Src.u32.flag_as_trips w = some (flagAsTrips w) := rfl
+theorem u32_flag_as_quads (w : Nat) : Src.u32.flag_as_quads w = some (flagAsQuads w) := rfl
+theorem u32_strip_multiples_flags (w : Nat) : Src.u32.strip_multiples_flags w = some (stripMultiplesFlags w) := rfl
+theorem u32_is_blank (w : Nat) : Src.u32.is_blank w = some (isBlank w) := by
+  by_cases h : w = 0 <;> simp [Src.u32.is_blank, isBlank, Gen.isBlankPoints, Src.CardNumber.BLANK, h]
+
+/-! ### rank / suit of a word: the translated matches against the regenerated field graphs -/
+theorem rankIdx_lt (w : Nat) : rankIdx w < 8192 := by
+  unfold rankIdx
+  have h : w &&& Gen.rankFlagFilter ≤ Gen.rankFlagFilter := Nat.and_le_right
+  have : Gen.rankFlagFilter = 0x1FFF0000 := by decide
+  rw [Nat.shiftRight_eq_div_pow]; omega
+theorem suitIdx_lt (w : Nat) : suitIdx w < 16 := by
+  unfold suitIdx
+  have h : w &&& Gen.suitFilter ≤ Gen.suitFilter := Nat.and_le_right
+  have : Gen.suitFilter = 0xF000 := by decide
+  rw [Nat.shiftRight_eq_div_pow]; omega
+
+def rankGraphChk : Bool := (List.range 8192).all fun m =>
+  Src.matchTable [(4096, 14), (2048, 13), (1024, 12), (512, 11), (256, 10), (128, 9), (64, 8), (32, 7), (16, 6), (8, 5), (4, 4), (2, 3), (1, 2)] 0 m
+    == get 8 Gen.rankFieldRankP m
+theorem rankGraphChk_ok : rankGraphChk = true := by decide +kernel
+theorem rank_graph (m : Nat) (h : m < 8192) :
+    Src.matchTable [(4096, 14), (2048, 13), (1024, 12), (512, 11), (256, 10), (128, 9), (64, 8), (32, 7), (16, 6), (8, 5), (4, 4), (2, 3), (1, 2)] 0 m
+      = get 8 Gen.rankFieldRankP m := by
+  have := List.all_eq_true.mp rankGraphChk_ok m (List.mem_range.mpr h)
+  simpa using this
+theorem u32_get_card_rank (w : Nat) : Src.u32.get_card_rank w = some (getCardRank w) := by
+  simp only [Src.u32.get_card_rank, u32_get_rank_bit, Option.bind, getCardRank]
+  exact congrArg some (rank_graph _ (rankIdx_lt w))
+
+theorem suit_graph : ∀ m, m < 16 → Src.matchTable [(8, 4), (4, 3), (2, 2), (1, 1)] 0 m = Gen.suitFieldSuit.getD m 0 := by decide
+theorem u32_get_card_suit (w : Nat) : Src.u32.get_card_suit w = some (getCardSuit w) := by
+  simp only [Src.u32.get_card_suit, u32_get_suit_bit, Option.bind, getCardSuit]
+  exact congrArg some (suit_graph _ (suitIdx_lt w))
+
+theorem next_graph : ∀ m, m < 16 →
+    Src.matchTable [(4, 3), (3, 2), (2, 1), (1, 4), (0, 0)] 0 (Gen.suitFieldSuit.getD m 0) = Gen.suitFieldNext.getD m 0 := by decide
+theorem u32_next_suit (w : Nat) : Src.u32.next_suit w = some (nextSuit w) := by
+  simp only [Src.u32.next_suit, u32_get_card_suit, Option.bind, nextSuit, getCardSuit]
+  exact congrArg some (next_graph _ (suitIdx_lt w))
+
+/-! ### `create` and the suit shift -/
+def rankVals : List Nat := [0, 2, 3, 4, 5, 6, 7, 8, 9, 10, 11, 12, 13, 14]
+def suitVals : List Nat := [0, 1, 2, 3, 4]
+
+def rankRangeChk : Bool := (List.range 8192).all fun m => rankVals.contains (get 8 Gen.rankFieldRankP m)
+theorem rankRangeChk_ok : rankRangeChk = true := by decide +kernel
+theorem getCardRank_mem (w : Nat) : getCardRank w ∈ rankVals := by
+  have := List.all_eq_true.mp rankRangeChk_ok (rankIdx w) (List.mem_range.mpr (rankIdx_lt w))
+  simpa [getCardRank] using this
+theorem nextSuit_range : ∀ m, m < 16 → Gen.suitFieldNext.getD m 0 ∈ suitVals := by decide
+theorem nextSuit_mem (w : Nat) : nextSuit w ∈ suitVals := nextSuit_range _ (suitIdx_lt w)
+
+theorem create_graph : ∀ r ∈ rankVals, ∀ s ∈ suitVals, Src.u32.create r s = some (create r s) := by decide +kernel
+theorem u32_shift_suit (w : Nat) : Src.u32.shift_suit w = some (shiftSuit w) := by
+  simp only [Src.u32.shift_suit, u32_get_card_rank, u32_next_suit, Option.bind,
+    create_graph _ (getCardRank_mem w) _ (nextSuit_mem w), shiftSuit]
+
 end Tie
